@@ -1,12 +1,12 @@
 (* C11 -- Descriptions are rejected iff defective, with the documented error and culprit.
    C11_error_ok d e (spec/LoaderSpec.v): the defect of e's class is present in d with e's fields as the
    culprit.  C11_accept_ok d P: d has no syntactic defect and P is well-formed (C09) and exact (C10).
-   Guards: acl_knownb (every memoryAccess entry names a declared capability) and names_nonemptyb; outside
-   them the loader fails with an undocumented error (the two listed findings, refuted below). *)
+   Guard: acl_knownb (every memoryAccess entry names a declared capability); outside it the loader fails
+   with an undocumented error (the listed finding, refuted below). *)
 From PS Require Import Base Str Sim Graph Loader Diag LoaderSpec C11_proof.
 
 Theorem C11_error_sound :
-  forall d e, acl_knownb d = true -> names_nonemptyb d = true ->
+  forall d e, acl_knownb d = true ->
     load_proc_desc d = LoadErr e -> C11_error_ok d e = true.
 Proof. exact C11_error_sound_lemma. Qed.
 Print Assumptions C11_error_sound.
@@ -19,16 +19,13 @@ Print Assumptions C11_accept_sound.
 (* rejected iff defective: "defective" = the loader's own verdict is justified either way, and the model
    is total, so exactly one of the two holds for every description inside the guards *)
 Theorem C11_iff :
-  forall d, acl_knownb d = true -> names_nonemptyb d = true ->
+  forall d, acl_knownb d = true ->
     (exists P, load_proc_desc d = LoadOk P /\ C11_accept_ok d P = true) \/
     (exists e, load_proc_desc d = LoadErr e /\ C11_error_ok d e = true).
 Proof. exact C11_iff_lemma. Qed.
 Print Assumptions C11_iff.
 
-(* the two listed findings: outside the guards a rejection is NOT a documented one *)
+(* the listed finding: outside the guard a rejection is NOT a documented one *)
 Theorem C11_refuted_acl :
-  exists d, names_nonemptyb d = true /\ load_proc_desc d = LoadErr EAclAssert.
+  exists d, load_proc_desc d = LoadErr EAclAssert.
 Proof. exact C11_refuted_acl_lemma. Qed.
-Theorem C11_refuted_empty_name :
-  exists d, acl_knownb d = true /\ load_proc_desc d = LoadErr EEmptyProc /\ C11_error_ok d EEmptyProc = false.
-Proof. exact C11_refuted_empty_name_lemma. Qed.
